@@ -25,6 +25,9 @@ func propC03(w *World, r *Report) {
 	}
 	checkHeaderWrite(w, r, fn)
 	checkReadBack(w, r)
+	checkWriteArgs(w, r)
+	// what an independent parser reads as glyph offsets: the short loca format must be able to hold them
+	RunLocaPair(w, r)
 	RunScanOrder(w, r)
 	// "an independent implementation reports the same glyph names": the format choice and the string area of the post table
 	r.Rule("macroman1 / pascal (shared with C14): post format 1.0 is chosen only for exactly the standard name list; every glyph name in a format 2.0 string area is preceded by a length byte that can represent it")
